@@ -720,6 +720,12 @@ def subst_locals(func_node: ast.AST, expr: ast.AST, depth: int = 3) -> ast.AST:
                         counts[x.id] = counts.get(x.id, 0) + 1
                         if isinstance(t, ast.Name) and len(n.targets) == 1:
                             vals[x.id] = n.value
+            # `a, b = x, y`: each name is assigned its own element
+            if len(n.targets) == 1 and isinstance(n.targets[0], (ast.Tuple, ast.List)) and isinstance(n.value, (ast.Tuple, ast.List)) \
+                    and len(n.targets[0].elts) == len(n.value.elts) and not any(isinstance(e_, ast.Starred) for e_ in list(n.targets[0].elts) + list(n.value.elts)):
+                for t_, v_ in zip(n.targets[0].elts, n.value.elts):
+                    if isinstance(t_, ast.Name) and not any(isinstance(z, ast.Name) and z.id in {q.id for q in n.targets[0].elts if isinstance(q, ast.Name)} for z in ast.walk(v_)):
+                        vals[t_.id] = v_
         elif isinstance(n, (ast.AugAssign, ast.AnnAssign)) and isinstance(n.target, ast.Name):
             counts[n.target.id] = counts.get(n.target.id, 0) + (1 if isinstance(n, ast.AnnAssign) and n.value is not None else 2)
             if isinstance(n, ast.AnnAssign) and n.value is not None:
